@@ -2,3 +2,4 @@ import CvDriver.Base
 import CvDriver.C18
 import CvDriver.C15
 import CvDriver.C11
+import CvDriver.Mod
